@@ -220,8 +220,11 @@ def check_property(pid, tier, seed):
         from . import translate
         tinfo = translate.run_all()
         res.extra["translator"] = tinfo
+        relevant = list(getattr(mod, "EXTRACTORS", []))
+        if os.path.exists(os.path.join(core.LEAN, "PcProps", pid + "Src.lean")):
+            relevant.append("extract_srcmirror")        # PcProps/<pid>Src.lean: source-mirror obligations of this property
         for name, inf in tinfo.items():
-            if isinstance(inf, dict) and "extractor_shape_changed" in inf and name in getattr(mod, "EXTRACTORS", []):
+            if isinstance(inf, dict) and "extractor_shape_changed" in inf and name in relevant:
                 emit_violation(ctx, "translator", "%s no longer recognises its source region: %s" % (name, inf["extractor_shape_changed"]),
                                dict(failing_input=None, broken="translator " + name))
         # 3. prove
